@@ -15,3 +15,6 @@ pub mod pgraphs;
 pub mod tilings;
 pub mod parse_dsym;
 pub mod generators;
+
+#[cfg(rust_dsymbols_verif)]
+pub mod verif_hooks;
